@@ -13,7 +13,7 @@ use simproto::*;
 
 pub fn run(ws: &Ws, seed: u64) -> Result<i32, String> {
     ws.build(&["simhost", "codecsim"])?;
-    let exec = Executor { simhost: ws.bin("simhost"), tag: "selftest".into() };
+    let exec = Executor::new(&ws.bin("simhost"), "selftest")?;
     let mut bad = 0;
     // ---- 1. catalogue
     for t in catalogue::TEMPLATES {
